@@ -25,21 +25,48 @@ package bus
 //@   ensures ret.Type == "DELETED_METADATA" && ret.Payload == anyof(tx)
 //@   modifies nothing
 
-// what is published goes out on the topic named after its type
-//@ func (*bus.ledgerMonitor).publish
-//@   requires topic == ev.Type // C16
-//@   modifies nothing
-//@   trusted watermill's publisher is outside the verifier
+// The publisher interface of watermill: what it is handed is on the bus (assumed). busSent counts the messages handed
+// over, busTopic / busMsg are the topic and the message of the last hand-over, msgEvent the event a message was built from.
+//@ ghost busSent int
+//@ ghost busTopic string
+//@ ghost busMsg *message.Message
+//@ ufun msgEvent(m *message.Message) publish.EventMessage
+//@ extern func publish.NewMessage
+//@   ensures ret != nil && msgEvent(ret) == m
+//@   pure
+//@ iface message.Publisher.Publish
+//@   update busSent = busSent + len(messages)
+//@   update busTopic = topic
+//@   update busMsg = messages[0]
+//@   modifies ghost busSent, ghost busTopic, ghost busMsg
 
+// what is published goes out on the topic named after its type; and it does go out: one message, built from that event,
+// whatever the state of the request's context (the change is persisted, C16: every persisted change is published)
+//@ func (*bus.ledgerMonitor).publish
+//@   requires l != nil
+//@   requires topic == ev.Type // C16
+//@   ensures busSent >= old(busSent) + 1 && busTopic == topic && busMsg != nil && msgEvent(busMsg) == ev // C16
+//@   modifies ghost busSent, ghost busTopic, ghost busMsg
+//@   property C16
+
+// each monitor method publishes its event (at least once: a publisher that retries is not excluded)
 //@ func (*bus.ledgerMonitor).CommittedTransactions
 //@   requires l != nil
+//@   ensures busSent >= old(busSent) + 1 && busTopic == "COMMITTED_TRANSACTIONS" // C16
+//@   modifies ghost busSent, ghost busTopic, ghost busMsg
 //@   property C16
 //@ func (*bus.ledgerMonitor).SavedMetadata
 //@   requires l != nil
+//@   ensures busSent >= old(busSent) + 1 && busTopic == "SAVED_METADATA" // C16
+//@   modifies ghost busSent, ghost busTopic, ghost busMsg
 //@   property C16
 //@ func (*bus.ledgerMonitor).RevertedTransaction
 //@   requires l != nil && reverted != nil && revert != nil
+//@   ensures busSent >= old(busSent) + 1 && busTopic == "REVERTED_TRANSACTION" // C16
+//@   modifies ghost busSent, ghost busTopic, ghost busMsg
 //@   property C16
 //@ func (*bus.ledgerMonitor).DeletedMetadata
 //@   requires l != nil
+//@   ensures busSent >= old(busSent) + 1 && busTopic == "DELETED_METADATA" // C16
+//@   modifies ghost busSent, ghost busTopic, ghost busMsg
 //@   property C16
